@@ -48,14 +48,18 @@ def main(argv: list[str] | None = None) -> int:
             hit = [f for f in ctx.findings if f.rule == want["rule"] and f.key == want["key"]]
             print(f"replay {want['rule']} @ {want['key']}: {'REPRODUCED' if hit else 'not reproduced'}")
             return 1 if hit else 0
+        from . import selftest
         if args.tier == "thorough":
-            from . import selftest
             st = selftest.run_for(prop, jobs=int(os.environ.get("VERIF_JOBS", "16")))
-            if st is not None:
-                selftest.merge_into_evidence(prop, st)
-                if st["misbehaving"] and rc == 0 and st["pristine"]:
-                    print(f"ANALYSIS-ERROR: self-test variants misbehaved for {prop}: {st['misbehaving'][:5]}")
-                    return 2
+        else:
+            # quick tier: a VERIF_SEED-chosen handful of variants (none for the product-based checks, which are slower)
+            st = selftest.run_for(prop, jobs=1, sample=0 if prop in ("C09", "C10", "C11") else 2, seed=seed)
+        if st is not None:
+            selftest.merge_into_evidence(prop, st)
+            print(f"{prop}: self-test {st['variants']} variant(s): {st['firing_ok']} firing ok, {st['silent_ok']} silent ok, {st['skipped']} skipped, {len(st['misbehaving'])} misbehaving")
+            if st["misbehaving"] and rc == 0 and st["pristine"] and args.tier == "thorough":
+                print(f"ANALYSIS-ERROR: self-test variants misbehaved for {prop}: {[m['name'] for m in st['misbehaving']][:5]}")
+                return 2
         return rc
     except AnalysisError as exc:
         print(f"ANALYSIS-ERROR: {prop}: {exc}")
